@@ -35,6 +35,29 @@ pub fn cksum(b: &[u8]) -> u64 {
 pub fn pat(seed: u8, n: usize) -> Vec<u8> {
     (0..n).map(|i| seed.wrapping_add((7 * i) as u8)).collect()
 }
+/// what a write stores: a pattern, or (seeds 250..255) a payload that itself looks like a piece of
+/// this very format -- zeros / a terminator followed by garbage / an encoded entry of a table tag /
+/// the entry's own header again / all ones
+pub fn wpat(seed: u8, n: usize) -> Vec<u8> {
+    let mut v: Vec<u8> = match seed {
+        250 => vec![0u8; n],
+        251 => { let mut x = vec![0u8; 8]; x.extend((0..n).map(|i| 0x80 | i as u8)); x }
+        252 => { let mut x = TAGS[1].to_vec(); x.extend_from_slice(&3u32.to_le_bytes()); x.extend_from_slice(&[9, 9, 9]); x.extend_from_slice(&TAGS[0]); x.extend_from_slice(&0u32.to_le_bytes()); x }
+        253 => { let mut x = TAGS[0].to_vec(); x.extend_from_slice(&(n as u32).to_le_bytes()); x.extend_from_slice(&TAGS[0]); x.extend_from_slice(&0xffff_ffffu32.to_le_bytes()); x }
+        254 => vec![0xffu8; n],
+        255 => { let mut x = vec![0u8; 7]; x.push(1); x.extend_from_slice(&[0u8; 12]); x }
+        _ => return pat(seed, n),
+    };
+    while v.len() < n {
+        let k = v.len();
+        v.push(v[k % 13] ^ 0x11);
+    }
+    v.truncate(n);
+    v
+}
+fn emit_wpat(seed: u8, n: usize) -> String {
+    if seed >= 250 { emit::blob(&wpat(seed, n)) } else { format!("(pat {} {})", seed, n) }
+}
 
 macro_rules! deftag {
     ($T:ident, $P:ident, $B:ident, $H:ident, $k:expr) => {
@@ -190,14 +213,14 @@ pub fn apply_op(buf: &mut [u8], op: &Op) -> Res<(usize, usize)> {
             }),
             Op::Write { t, rep, seed } => with_tag!(*t, T, P, B, H, {
                 let s = if *rep == 0 && seed % 2 == 0 { st.get_first_bytes_mut::<T>()? } else { st.get_bytes_with_repetition_mut::<T>(*rep)? };
-                let new = pat(*seed, s.len());
+                let new = wpat(*seed, s.len());
                 s.copy_from_slice(&new);
                 Ok((s.as_ptr() as usize - base, 0))
             }),
             Op::WriteTyped { t, rep, size, seed } => with_tag!(*t, T, P, B, H, {
                 with_size!(*size, S, {
                     let v = if *rep == 0 && seed % 2 == 0 { st.get_first_value_mut::<P<S>>()? } else { st.get_value_with_repetition_mut::<P<S>>(*rep)? };
-                    let new = pat(*seed, S);
+                    let new = wpat(*seed, S);
                     v.0.copy_from_slice(&new);
                     Ok((v as *mut P<S> as usize - base, 0))
                 })
@@ -357,9 +380,9 @@ fn emit_op(op: &Op, cur_len_for_write: usize) -> String {
             emit::boolean(*allow)
         ),
         Op::Realloc { t, len, rep } => format!("ORealloc {} {} {}", emit_tag(*t), len, rep),
-        Op::Write { t, rep, seed } => format!("OWrite {} {} (pat {} {})", emit_tag(*t), rep, seed, cur_len_for_write),
+        Op::Write { t, rep, seed } => format!("OWrite {} {} {}", emit_tag(*t), rep, emit_wpat(*seed, cur_len_for_write)),
         Op::WriteTyped { t, rep, size, seed } => {
-            format!("OWriteTyped {} {} {} (pat {} {})", emit_tag(*t), rep, size, seed, size)
+            format!("OWriteTyped {} {} {} {}", emit_tag(*t), rep, size, emit_wpat(*seed, *size))
         }
         Op::PackVar { t, rep, data, borsh } => format!(
             "OPackVar {} {} {} {}",
@@ -439,7 +462,7 @@ impl Oracle {
             Op::Write { t, rep, seed } => {
                 let i = self.find(*t, *rep)?;
                 let l = self.es[i].1.len();
-                self.es[i].1 = pat(*seed, l);
+                self.es[i].1 = wpat(*seed, l);
                 Some((self.offset_of(i), 0))
             }
             Op::WriteTyped { t, rep, size, seed } => {
@@ -447,7 +470,7 @@ impl Oracle {
                 if self.es[i].1.len() != *size {
                     return None;
                 }
-                self.es[i].1 = pat(*seed, *size);
+                self.es[i].1 = wpat(*seed, *size);
                 Some((self.offset_of(i), 0))
             }
             Op::PackVar { t, rep, data, borsh } => {
@@ -561,7 +584,7 @@ pub fn gen_op(rng: &mut Rng, o: &Oracle, fail_bias: bool) -> Op {
         }
         8 | 9 => {
             let (t, rep) = pick_entry(rng, o, miss);
-            Op::Write { t, rep, seed: rng.byte() }
+            Op::Write { t, rep, seed: if rng.chance(1, 5) { 250 + rng.below(6) as u8 } else { rng.byte() } }
         }
         10 | 11 => {
             let (t, rep) = pick_entry(rng, o, miss);
@@ -571,7 +594,7 @@ pub fn gen_op(rng: &mut Rng, o: &Oracle, fail_bias: bool) -> Op {
             } else {
                 *rng.pick(&TYPED_SIZES)
             };
-            Op::WriteTyped { t, rep, size, seed: rng.byte() }
+            Op::WriteTyped { t, rep, size, seed: if rng.chance(1, 5) { 250 + rng.below(6) as u8 } else { rng.byte() } }
         }
         _ => {
             let (t, rep) = pick_entry(rng, o, miss);
@@ -1122,7 +1145,7 @@ pub fn dirty_tail_scenario(rep: &mut Report, prop: &str, rng: &mut Rng, to_coq: 
     let r = o.es[..i].iter().filter(|(k, _)| *k == t).count();
     let old = o.es[i].1.len();
     let op = match rng.below(4) {
-        0 => Op::Write { t, rep: r, seed: rng.byte() },
+        0 => Op::Write { t, rep: r, seed: if rng.chance(1, 3) { 250 + rng.below(6) as u8 } else { rng.byte() } },
         1 => Op::Realloc { t, len: rng.below(old as u64 + 1) as usize, rep: r },
         _ => Op::Realloc { t, len: old + rng.range(1, slack as u64 + 3) as usize, rep: r },
     };
